@@ -1,8 +1,127 @@
 import Solvor.Common.Proto
 import Solvor.Sched.Model
-/-! Sched: line-protocol handler. One request line in, one reply line out. -/
-namespace Solvor.Sched
+/-! Sched: line-protocol handler.
 
-def handle (line : String) : String := "unimplemented " ++ line
+request `["js", jobs, rule, scheds]`
+  jobs   : list of jobs, each a list of `[machine, duration]`
+  rule   : 0 fifo | 1 spt | 2 lpt | 3 mwkr | -1 (no deterministic mirror requested)
+  scheds : list of `[entries, obj]`, entries = `[job, op, start, end]` in dict insertion order,
+           obj a rational `[num, den]`
+reply `[ruleSchedule | null, [[chk, refine, makespan] …]]`
+  ruleSchedule : the mirror `dispatchRule` (entries in placement order)
+  chk          : verified checker `chkSchedule` (valid schedule and obj = latest end)
+  refine       : `isDispatchOf` (the schedule is the abstract machine's for its own pick order)
+
+request `["vrp", n, req, dist, demand, twStart, twEnd, service, cap, weights, tol, states, steps]`
+  req/demand/twStart/twEnd/service : per customer index 0..n (0 = depot); twEnd / cap entries `null` = +∞
+  dist     : (n+1)×(n+1) rationals (the implementation's cached distance matrix, exact)
+  weights  : six entries (dw, vw, twp, capp, syncp, unp); a `null` entry = default of `vrp_objective`
+  states   : list of `[routes, unassigned, arrival_times, objective]`
+  steps    : list of `[kind, pre, post]` (indices into states; kind 0 = destroy, 1 = repair)
+reply `[[[inv, arrOK, objOK, exactObj] …], [refines …]]`
+-/
+namespace Solvor.Sched
+open Solvor.Proto
+
+private def getF {α} (xs : List α) (d : α) : Nat → α := fun i => xs.getD i d
+
+private def parseJobs (v : Val) : Option Jobs := do
+  let js ← v.toArr?
+  js.mapM fun j => do
+    let ops ← j.toNatss?
+    ops.mapM fun o => match o with
+      | [m, d] => some (m, d)
+      | _ => none
+
+private def parseEntries (v : Val) : Option (List Entry) := do
+  let es ← v.toIntss?
+  es.mapM fun e => match e with
+    | [j, k, s, f] => if j < 0 ∨ k < 0 then none else some ⟨j.toNat, k.toNat, s, f⟩
+    | _ => none
+
+private def ruleOf : Int → Option Rule
+  | 0 => some .fifo
+  | 1 => some .spt
+  | 2 => some .lpt
+  | 3 => some .mwkr
+  | _ => none
+
+private def entriesVal (S : List Entry) : Val :=
+  Val.arr (S.map fun e => Val.ofInts [e.job, e.op, e.start, e.fin])
+
+private def handleJs (jobs rule scheds : Val) : String :=
+  match parseJobs jobs, rule.toInt?, scheds.toArr? with
+  | some jobs, some rule, some scheds =>
+    let rs := (ruleOf rule).map fun r => dispatchRule r jobs
+    let outs := scheds.map fun sv =>
+      match sv with
+      | Val.arr [ev, ov] =>
+        match parseEntries ev, ov.toRat? with
+        | some S, some q =>
+          let chk := q.den == 1 && chkSchedule jobs S q.num
+          Val.arr [Val.bool chk, Val.bool (isDispatchOf jobs S), Val.int (makespan S)]
+        | _, _ => Val.str "bad schedule"
+      | _ => Val.str "bad schedule"
+    (Val.arr [Val.ofOpt entriesVal rs, Val.arr outs]).render
+  | _, _, _ => err "bad js arguments"
+
+private def optRats (v : Val) : Option (List (Option Rat)) := do
+  (← v.toArr?).mapM (Val.toOpt? Val.toRat?)
+
+private def parseState (v : Val) : Option (VState × List (List Rat) × Rat) :=
+  match v with
+  | Val.arr [r, u, a, o] => do
+    let r ← r.toNatss?
+    let u ← u.toNats?
+    let a ← a.toRatss?
+    let o ← o.toRat?
+    some (⟨r, u⟩, a, o)
+  | _ => none
+
+private def pick (d : Rat) : Option Rat → Rat
+  | some x => x
+  | none => d
+
+private def handleVrp (args : List Val) : String :=
+  match args with
+  | [n, req, dist, demand, tws, twe, svc, cap, weights, tol, states, steps] =>
+    match n.toNat?, req.toNats?, dist.toRatss?, demand.toRats?, tws.toRats?, optRats twe, svc.toRats?,
+          optRats cap, optRats weights, tol.toRat?, states.toArr?, steps.toNatss? with
+    | some n, some req, some dist, some demand, some tws, some twe, some svc, some cap, some ws,
+      some tol, some states, some steps =>
+      let P : Prob :=
+        { n := n, req := getF req 1, dist := fun i j => (dist.getD i []).getD j 0,
+          demand := getF demand 0, twStart := getF tws 0, twEnd := getF twe none,
+          service := getF svc 0, cap := getF cap none }
+      let D := Weights.default
+      let W : Weights :=
+        ⟨pick D.dw (ws.getD 0 none), pick D.vw (ws.getD 1 none), pick D.twp (ws.getD 2 none),
+         pick D.capp (ws.getD 3 none), pick D.syncp (ws.getD 4 none), pick D.unp (ws.getD 5 none)⟩
+      match states.mapM parseState with
+      | none => err "bad vrp state"
+      | some sts =>
+        let arr := sts.toArray
+        let sv := sts.map fun (s, a, o) =>
+          let arrOK := a.length == s.routes.length &&
+            (s.routes.zip a).all fun ra => chkArrivals tol P ra.1 ra.2
+          Val.arr [Val.bool (chkInv P s), Val.bool arrOK, Val.bool (chkObjective tol W P s o),
+                   Val.ofRat (objective W P s)]
+        let tv := steps.map fun st =>
+          match st with
+          | [k, i, j] =>
+            match arr[i]?, arr[j]? with
+            | some (pre, _, _), some (post, _, _) =>
+              Val.bool (if k == 0 then isRemove P pre post else isInsertRun P pre post)
+            | _, _ => Val.str "bad step index"
+          | _ => Val.str "bad step"
+        (Val.arr [Val.arr sv, Val.arr tv]).render
+    | _, _, _, _, _, _, _, _, _, _, _, _ => err "bad vrp arguments"
+  | _ => err "bad vrp arity"
+
+def handle (line : String) : String :=
+  match request line with
+  | some ("js", [jobs, rule, scheds]) => handleJs jobs rule scheds
+  | some ("vrp", args) => handleVrp args
+  | _ => err "bad request"
 
 end Solvor.Sched
